@@ -266,8 +266,10 @@ func (f *formatter) StmtClass(n *ast.StmtClass) {
 
 	n.ClassTkn = f.newToken(token.T_CLASS, []byte("class"))
 
-	f.addFreeFloating(token.T_WHITESPACE, []byte(" "))
-	n.Name.Accept(f)
+	if n.Name != nil {
+		f.addFreeFloating(token.T_WHITESPACE, []byte(" "))
+		n.Name.Accept(f)
+	}
 
 	n.OpenParenthesisTkn = nil
 	n.CloseParenthesisTkn = nil
@@ -1034,14 +1036,19 @@ func (f *formatter) StmtWhile(n *ast.StmtWhile) {
 func (f *formatter) ExprArray(n *ast.ExprArray) {
 	n.ArrayTkn = f.newToken(token.T_ARRAY, []byte("array"))
 	n.OpenBracketTkn = f.newToken('(', []byte("("))
-	n.SeparatorTkns = f.formatList(n.Items, ',')
+	n.SeparatorTkns = nil
+	if len(n.Items) > 0 {
+		n.SeparatorTkns = f.formatList(n.Items, ',')
+	}
 	n.CloseBracketTkn = f.newToken(')', []byte(")"))
 }
 
 func (f *formatter) ExprArrayDimFetch(n *ast.ExprArrayDimFetch) {
 	n.Var.Accept(f)
 	n.OpenBracketTkn = f.newToken('[', []byte("["))
-	n.Dim.Accept(f)
+	if n.Dim != nil {
+		n.Dim.Accept(f)
+	}
 	n.CloseBracketTkn = f.newToken(']', []byte("]"))
 }
 
@@ -1057,7 +1064,9 @@ func (f *formatter) ExprArrayItem(n *ast.ExprArrayItem) {
 		f.addFreeFloating(token.T_WHITESPACE, []byte(" "))
 	}
 
-	n.Val.Accept(f)
+	if n.Val != nil {
+		n.Val.Accept(f)
+	}
 }
 
 func (f *formatter) ExprArrowFunction(n *ast.ExprArrowFunction) {
@@ -1259,7 +1268,10 @@ func (f *formatter) ExprIsset(n *ast.ExprIsset) {
 func (f *formatter) ExprList(n *ast.ExprList) {
 	n.ListTkn = f.newToken(token.T_LIST, []byte("list"))
 	n.OpenBracketTkn = f.newToken('(', []byte("("))
-	n.SeparatorTkns = f.formatList(n.Items, ',')
+	n.SeparatorTkns = nil
+	if len(n.Items) > 0 {
+		n.SeparatorTkns = f.formatList(n.Items, ',')
+	}
 	n.CloseBracketTkn = f.newToken(')', []byte(")"))
 }
 
@@ -1441,6 +1453,11 @@ func (f *formatter) ExprVariable(n *ast.ExprVariable) {
 
 func (f *formatter) ExprYield(n *ast.ExprYield) {
 	n.YieldTkn = f.newToken(token.T_YIELD, []byte("yield"))
+
+	if n.Val == nil {
+		return
+	}
+
 	f.addFreeFloating(token.T_WHITESPACE, []byte(" "))
 
 	if n.Key != nil {
